@@ -186,6 +186,28 @@ def ev_all_families_writable(w):
     return tuple(out)
 
 
+def ev_two_point_sets(w):
+    """the same methods on the same objects with two different point sets of the same shape: the second result must equal
+    that of freshly built objects (a cache keyed on the object / the shape of the argument would return stale values)"""
+    X2 = w.X + 0.37
+    P2 = np.array([0.2, 0.6, 0.9])
+    out = []
+    for X_, P_ in ((w.X, w.P), (X2, P2)):
+        out.append((_res(w.A.pdf(X_)), _res(w.A.distributions[0].cdf(X_[:, 0])), _res(w.A.distributions[0].icdf(P_)),
+                    _res(w.A.distributions[1].pdf(X_[:, 1], given=X_[:, 0])), _res(w.A.distributions[1].icdf(P_, given=X_[:3, 0])),
+                    _res(IFORMContour(w.A, float(P_[0]) / 10, n_points=12).coordinates),
+                    _res(HighestDensityContour(w.A, float(P_[1]) / 3, limits=[(0, 8), (0, 10)], deltas=[0.5, 0.5]).coordinates)))
+    fresh, _ = zoo.build_model(["WeibullDistribution", "LogNormalDistribution"], [None, 0], "A")
+    ref = (_res(fresh.pdf(X2)), _res(fresh.distributions[0].cdf(X2[:, 0])), _res(fresh.distributions[0].icdf(P2)),
+           _res(fresh.distributions[1].pdf(X2[:, 1], given=X2[:, 0])), _res(fresh.distributions[1].icdf(P2, given=X2[:3, 0])),
+           _res(IFORMContour(fresh, float(P2[0]) / 10, n_points=12).coordinates),
+           _res(HighestDensityContour(fresh, float(P2[1]) / 3, limits=[(0, 8), (0, 10)], deltas=[0.5, 0.5]).coordinates))
+    if out[1] != ref:
+        raise AssertionError("second evaluation on the same objects differs from the evaluation on fresh objects: "
+                             + str([i for i, (a, b) in enumerate(zip(out[1], ref)) if a != b]))
+    return tuple(out)
+
+
 def ev_B2_eval(w):
     # evaluating the second getter result (unfitted or fitted) must not change anything either
     try:
@@ -201,6 +223,7 @@ EVENTS = {
     "dist_methods": ("eval", ev_dist_methods),
     "readonly_inputs": ("eval", ev_readonly_inputs),
     "all_families_writable": ("eval", ev_all_families_writable),
+    "two_point_sets": ("eval", ev_two_point_sets),
     "marginals": ("eval", lambda w: (_res(w.A.marginal_pdf(w.X[:1, 1], 1)), _res(w.A.marginal_cdf(w.X[:1, 1], 1)),
                                      _res(w.A.marginal_icdf(w.P, 0)))),
     "draw_sample": ("eval", lambda w: _res(w.A.draw_sample(50, random_state=9))),
@@ -320,7 +343,11 @@ def run_case(case):
             bad("state_changed", {"event": ev, "changed": bad_changes}, hist + [ev])
         if kind in ("eval", "eval3", "getter"):
             stats["eval_transitions"] += 1
-            r2 = apply_event(w, ev)
+            try:
+                r2 = apply_event(w, ev)
+            except Exception as e:
+                bad("exception_on_repetition", {"event": ev, "type": type(e).__name__, "msg": str(e)[:160]}, hist + [ev])
+                return []
             if r1 != r2:
                 bad("not_repeatable", {"event": ev}, hist + [ev])
             key = (canon_key(before), ev)
@@ -397,7 +424,7 @@ def run_case(case):
 def main(ctx):
     ctx.rule = ("explicit-state BFS per predefined getter (6): state = history of events, canonical form = deep digest of every "
                 "attribute of the models A (2-D), A3 (3-D), both getter results B/B' (descriptions and models), the template T and "
-                "its conditional wrapper, and the caller-owned arrays X, P, S, D; alphabet = 23 events (pdf/cdf/icdf of distributions "
+                "its conditional wrapper, and the caller-owned arrays X, P, S, D; alphabet = 24 events (pdf/cdf/icdf of distributions "
                 "and joint model with array, list and read-only inputs, marginals, seeded sampling, IFORM, ISORM, HDC, direct "
                 "sampling, AND, OR, design conditions, three plot functions, save, 3-D evaluation, getter again, fit(B), fit(B'), "
                 "fit(wrapper)); search until the canonical state set closes. Every transition re-executes the event on fresh "
